@@ -121,6 +121,7 @@ def AllMoves (s : St) (x : XS) : List Prim → Prop
   | .move tok src dst _ :: ps => InRange s x tok src ∧ InRange s x tok dst ∧ AllMoves s x ps
   | .burn _ :: _ => False
   | .kill b :: ps => InRange s x false b ∧ AllMoves s x ps
+  | .award k _ :: ps => k < x.yw.length ∧ AllMoves s x ps
 
 instance allMovesDecidable (s : St) (x : XS) : (ps : List Prim) → Decidable (AllMoves s x ps)
   | [] => isTrue trivial
@@ -131,6 +132,9 @@ instance allMovesDecidable (s : St) (x : XS) : (ps : List Prim) → Decidable (A
   | .kill b :: ps =>
     have := allMovesDecidable s x ps
     inferInstanceAs (Decidable (InRange s x false b ∧ AllMoves s x ps))
+  | .award k _ :: ps =>
+    have := allMovesDecidable s x ps
+    inferInstanceAs (Decidable (k < x.yw.length ∧ AllMoves s x ps))
 
 theorem applyPrim_inRange (s : St) (x : XS) (p : Prim) (tok' : Bool) (b' : Bk) (h : InRange s x tok' b') :
     InRange (applyPrim (s, x) p).1 (applyPrim (s, x) p).2 tok' b' := by
@@ -153,12 +157,33 @@ theorem applyPrim_inRange (s : St) (x : XS) (p : Prim) (tok' : Bool) (b' : Bk) (
     | x k =>
       simp only [applyPrim]
       cases b' <;> cases tok' <;> simp only [InRange, Bool.false_eq_true, if_false, if_true] at h ⊢ <;> exact h
+  | award k w =>
+    simp only [applyPrim]
+    cases b' <;> cases tok' <;> simp only [InRange, Bool.false_eq_true, if_false, if_true] at h ⊢ <;> exact h
+
+/-- an award touches only the wei part of the observation -/
+theorem applyPrim_award_eq (s : St) (x : XS) (k : Nat) (w : Int) :
+    applyPrim (s, x) (.award k w) = (s, { x with yw := addAt x.yw k w, fw := x.fw + w }) := rfl
+
+theorem applyPrim_award_totals (s : St) (x : XS) (k : Nat) (w : Int) :
+    nativeTotal (applyPrim (s, x) (.award k w)).1 (applyPrim (s, x) (.award k w)).2 = nativeTotal s x ∧
+    tokenTotal (applyPrim (s, x) (.award k w)).1 (applyPrim (s, x) (.award k w)).2 = tokenTotal s x := ⟨rfl, rfl⟩
 
 /-- a SELFDESTRUCT mark moves nothing -/
 theorem applyPrim_kill_totals (s : St) (x : XS) (b : Bk) :
     nativeTotal (applyPrim (s, x) (.kill b)).1 (applyPrim (s, x) (.kill b)).2 = nativeTotal s x ∧
     tokenTotal (applyPrim (s, x) (.kill b)).1 (applyPrim (s, x) (.kill b)).2 = tokenTotal s x := by
   cases b <;> exact ⟨rfl, rfl⟩
+
+/-- no primitive changes the number of award payees -/
+theorem applyPrim_yw_length (s : St) (x : XS) (p : Prim) : (applyPrim (s, x) p).2.yw.length = x.yw.length := by
+  cases p with
+  | move tok src dst amt =>
+    rw [applyPrim_move]
+    cases src <;> cases dst <;> cases tok <;> rfl
+  | burn b => cases b <;> rfl
+  | kill b => cases b <;> rfl
+  | award k w => simp only [applyPrim, length_addAt]
 
 theorem allMoves_step (s : St) (x : XS) (p : Prim) (ps : List Prim) (h : AllMoves s x ps) :
     AllMoves (applyPrim (s, x) p).1 (applyPrim (s, x) p).2 ps := by
@@ -173,6 +198,9 @@ theorem allMoves_step (s : St) (x : XS) (p : Prim) (ps : List Prim) (h : AllMove
     | kill b =>
       simp only [AllMoves] at h ⊢
       exact ⟨applyPrim_inRange s x p false b h.1, ih h.2⟩
+    | award k w =>
+      simp only [AllMoves] at h ⊢
+      exact ⟨by rw [applyPrim_yw_length]; exact h.1, ih h.2⟩
 
 /-- **C06 over contract movements (partial).**  A list of moves between observed buckets conserves the native and the token
 total.  This is what every contract transaction of the harness books except SELFDESTRUCT in favour of the contract itself. -/
@@ -195,6 +223,12 @@ theorem applyPrims_conserves (ps : List Prim) (s : St) (x : XS) (h : AllMoves s 
       simp only [AllMoves] at h
       have h1 := applyPrim_kill_totals s x b
       have h2 := ih (applyPrim (s, x) (.kill b)).1 (applyPrim (s, x) (.kill b)).2 (allMoves_step s x _ ps h.2)
+      simp only [applyPrims, List.foldl_cons] at h2 ⊢
+      exact ⟨h2.1.trans h1.1, h2.2.trans h1.2⟩
+    | award k w =>
+      simp only [AllMoves] at h
+      have h1 := applyPrim_award_totals s x k w
+      have h2 := ih (applyPrim (s, x) (.award k w)).1 (applyPrim (s, x) (.award k w)).2 (allMoves_step s x _ ps h.2)
       simp only [applyPrims, List.foldl_cons] at h2 ⊢
       exact ⟨h2.1.trans h1.1, h2.2.trans h1.2⟩
 
